@@ -184,15 +184,17 @@ void exhaustive(const vf::Options& o, vf::Tally& tally)
    tally.notes["zoo"] = "fixed script running every op with 9-40 operand variants, 4 rounds: " + std::to_string(c.ops.size()) + " ops";
 }
 
-}   // namespace
-
-int main(int argc, char** argv)
+void select_property(const vf::Options& o)
 {
-   for (int i = 1; i + 1 < argc; ++i)
-      if (std::string(argv[i]) == "--x-prop") g_prop = argv[i + 1];
+   auto it = o.extra.find("prop");
+   if (it != o.extra.end()) g_prop = it->second;
    for (auto& c : cfgs)
       if (g_prop == c.id) g_profile = c.profile;
-   static std::string prop = g_prop;
+}
+
+vf::Hooks<Case> make_hooks(const vf::Options& o)
+{
+   select_property(o);
    vf::Hooks<Case> hk;
    hk.generator = [](const vf::Options&) { return case_gen(g_profile); };
    hk.run = run_case;
@@ -200,5 +202,35 @@ int main(int argc, char** argv)
    hk.from_text = [](const std::string& s, Case& c) { return from_text(s, c); };
    hk.sample = sample;
    hk.exhaustive = exhaustive;
-   return vf::drive<Case>(argc, argv, prop.c_str(), hk);
+   return hk;
 }
+bool decode(const std::uint8_t* d, std::size_t n, const vf::Options&, Case& c) { return script_from_bytes(d, n, g_profile, 0, c); }
+
+}   // namespace
+
+#ifdef VF_FUZZ
+extern "C" int LLVMFuzzerTestOneInput(const std::uint8_t* d, std::size_t n)
+{
+   static std::string prop = [] {   // the property id is an option here (VF_ARGS: --x-prop Cxx)
+      std::string p = "C02";
+      if (const char* env = std::getenv("VF_ARGS")) {
+         std::istringstream is(env);
+         std::string line, prev;
+         while (std::getline(is, line)) {
+            if (prev == "--x-prop") p = line;
+            prev = line;
+         }
+      }
+      return p;
+   }();
+   return vf::fuzz_one<Case>(d, n, prop.c_str(), make_hooks, decode);
+}
+#else
+int main(int argc, char** argv)
+{
+   const vf::Options o0 = vf::parse_options(argc, argv, "C02");
+   select_property(o0);
+   static std::string prop = g_prop;
+   return vf::drive<Case>(argc, argv, prop.c_str(), make_hooks(o0));
+}
+#endif
